@@ -6,6 +6,8 @@ package main
 import (
 	"fmt"
 	"go/token"
+
+	"golang.org/x/tools/go/ssa"
 	"go/types"
 	"sort"
 	"strings"
@@ -100,13 +102,14 @@ type VC struct {
 	sentinels  []string
 	rootFr     *Frame
 	smokeExit  *Obligation
+	calledContracts map[*ssa.Function]bool
 }
 
 func newVC(p *Prog, rootKey string, loopMods map[string]map[string]bool) *VC {
 	vc := &VC{p: p, srt: newSorter(), declared: map[string]bool{}, svars: map[string]*SVar{},
 		oblNames: map[string]int{}, counters: map[string]int{}, strIDs: map[string]int{}, used: map[string]bool{},
 		loopMods: loopMods, modsOut: map[string]map[string]bool{}, rootKey: rootKey, typeTags: map[string]int{},
-		globalsTouched: map[string]bool{}, lateVars: map[string]bool{}, usedLib: map[string]bool{}}
+		globalsTouched: map[string]bool{}, lateVars: map[string]bool{}, usedLib: map[string]bool{}, calledContracts: map[*ssa.Function]bool{}}
 	if vc.loopMods == nil {
 		vc.loopMods = map[string]map[string]bool{}
 	}
